@@ -218,13 +218,32 @@ func (rr *repoRun) finish() {
 }
 
 func (rr *repoRun) rep() map[string]any {
-	return map[string]any{"backend": map[bool]string{true: "disk", false: "memory"}[rr.disk], "steps": rr.hist}
+	return map[string]any{"backend": map[bool]string{true: "disk", false: "memory"}[rr.disk], "signature_validation_mode": rr.rw.w.Cfg.Sig, "steps": rr.hist}
 }
+
+// forceRepoWalkSig: set by a check that replays the same walk under a chosen signature validation mode (walks run one at a time)
+var forceRepoWalkSig string
 
 // runRepoWalk replays one walk of the CrlRepo graph (no readers) on a real repository, placing lookups, crash images
 // and directory listings at every loader step.
 func runRepoWalk(c *vk.Ctx, prop string, disk bool, walk []*graph.Edge, seed int64, imgDir string, after func(rw *repoWorld, imgs []crashImage)) []crashImage {
-	rw, err := newRepoWorld(disk, "verify", false, seed)
+	// the loader protocol is the same under every signature validation mode; what differs is only whether a list signed by
+	// another key is rejected. A walk that publishes no such list is replayed under a seeded mode, the others under "verify".
+	sig := "verify"
+	forged := false
+	for _, e := range walk {
+		var to repoState
+		if opName(e) == "publish" && json.Unmarshal([]byte(e.To), &to) == nil && to.Origin.Kind == "badsig" {
+			forged = true
+		}
+	}
+	if !forged {
+		sig = []string{"verify", "none", "verify_log", "none"}[int(uint64(seed)%4)]
+		if forceRepoWalkSig != "" {
+			sig = forceRepoWalkSig
+		}
+	}
+	rw, err := newRepoWorld(disk, sig, false, seed)
 	if err != nil {
 		c.Infra("repo world: %v", err)
 	}
@@ -467,6 +486,14 @@ func (rr *repoRun) observe(stop *repoStop, from, to *repoState, opName string) {
 			restingNames.Store(n, true)
 		}
 	}
+	if rr.prop == "C12" && rr.disk && quiescent && !parked && opName != "publish" && rr.imgDir != "" {
+		// the process dies at rest, after the run has ended (successfully or not): what the run left behind is all a restart finds
+		dir := filepath.Join(rr.imgDir, fmt.Sprintf("img-%d", len(rr.images)+1))
+		if err := rw.snapshot(dir); err == nil {
+			rr.images = append(rr.images, crashImage{Dir: dir, Lpc: to.Lpc, Kind: "rest", Site: "(at rest)", Loaded: to.Loaded && to.Final.Exists && to.Final.Meta, Keys: keyStr(to.Final.Keys),
+				Prev: keyStr(to.LiveDoc.Keys), New: "", NewAcc: false, Hist: append([]repoStop(nil), rr.hist...)})
+		}
+	}
 	if rr.prop == "C12" && rr.disk && parked && rr.imgDir != "" {
 		dir := filepath.Join(rr.imgDir, fmt.Sprintf("img-%d", len(rr.images)+1))
 		if err := rw.snapshot(dir); err == nil {
@@ -645,19 +672,35 @@ func C12(c *vk.Ctx) {
 	walks, images := 0, 0
 	init := freshInit(g)
 	for wi, plans := range repoScenarios(rng, c.Thorough()) {
-		if c.Violations() > 8 || (!c.Thorough() && wi >= 10) {
+		if c.Violations() > 8 {
 			break
 		}
 		w := guidedWalk(g, init, plans)
 		dir := filepath.Join(imgRoot, fmt.Sprintf("walk-%d", wi))
 		os.Mkdir(dir, 0o755)
-		imgs := runRepoWalk(c, "C12", true, w, c.Seed*1201+int64(walks), dir, func(rw *repoWorld, imgs []crashImage) {
-			for _, im := range imgs {
-				c12Restart(c, rw, im)
+		var imgs []crashImage
+		// every walk under "verify" and under "none" (without signature validation nothing stands between the parser and the
+		// store: the staging discipline alone keeps unaccepted data out of a restart's sight); forged lists only under "verify"
+		for _, sig := range []string{"verify", "none"} {
+			forceRepoWalkSig = sig
+			imgs = runRepoWalk(c, "C12", true, w, c.Seed*1201+int64(walks), dir, func(rw *repoWorld, imgs []crashImage) {
+				for _, im := range imgs {
+					c12Restart(c, rw, im)
+				}
+			})
+			forceRepoWalkSig = ""
+			walks++
+			images += len(imgs)
+			os.RemoveAll(dir)
+			os.Mkdir(dir, 0o755)
+			forged := false
+			for _, p := range plans {
+				forged = forged || p.Kind == "badsig"
 			}
-		})
-		walks++
-		images += len(imgs)
+			if forged {
+				break
+			}
+		}
 		os.RemoveAll(dir)
 		if wi == 0 {
 			c.Sample(map[string]any{"ops": opsOf(w, 14), "images": len(imgs)})
@@ -669,7 +712,7 @@ func C12(c *vk.Ctx) {
 	c.Set("crash_images", int64(images))
 	c.Set("traces_validated_against_impl", int64(walks))
 	c.Set("spec", "CrlRepo.tla with Crash enabled at every loader pc and Restart (temp sweep, Loaded := meta record present): CrashSafe, OnlyAccepted, NoResidue")
-	c.Set("rule", "a case is a crash image: work_dir copied while the real loader is parked at a verif hook (after the download, after staging, after parsing, before the swap, between each of the six steps of the directory swap, after it) for first loads and refreshes with acceptable and rejected documents; a fresh validator is provisioned on each image with the origin serving garbage and crl_cdp_strict on; violation iff it treats the location as loaded with anything but the complete previous or the complete new accepted list, or temporary artefacts survive Provision")
+	c.Set("rule", "a case is a crash image: work_dir copied while the real loader is parked at a verif hook (after the download, after staging, after parsing, before the swap, between each of the six steps of the directory swap, after it) for first loads and refreshes with acceptable and rejected documents, under signature validation verify and (walks without forged lists) none; a fresh validator with the same mode is provisioned on each image with the origin serving garbage and crl_cdp_strict on; violation iff it treats the location as loaded with anything but the complete previous or the complete new accepted list, or temporary artefacts survive Provision")
 	c.Assume("SIGKILL of the process, not power loss: a copy of a live LevelDB directory contains every completed write (no fsync modelling)")
 }
 
@@ -718,7 +761,7 @@ func c12Restart(c *vk.Ctx, parent *repoWorld, im crashImage) {
 	if im.NewAcc {
 		allowed[im.New] = true
 	}
-	if !allowed[got] || (im.Kind == "first" && !im.NewAcc) {
+	if !allowed[got] || (im.Kind == "first" && !im.NewAcc) || (im.Kind == "rest" && !im.Loaded) {
 		c.Violation(fmt.Sprintf("loaded-after-crash-with-unaccepted-data:kind=%s:crash-at=%s:new-acceptable=%v", im.Kind, im.Lpc, im.NewAcc),
 			fmt.Sprintf("after a crash at %s the restarted validator treats the location as loaded with revoked={%s}; the previous accepted list is {%s}, the new one {%s} (acceptable=%v)", im.Lpc, got, im.Prev, im.New, im.NewAcc), rep)
 	}
